@@ -34,7 +34,7 @@ ASSUMPTIONS = [
     "failpoints are placed only in callee frames below as_dict/as_obj: no real exception can arise between the plain assignments at the top of these two functions",
     "the slots are read through their name-mangled class attributes",
 ]
-MUST_SEE = ["option_spelled_false", "raised_with_options", "failpoints_fired", "failpoint_nested", "default_after_fault", "bomb_positions", "corrupt_payloads", "option_subsets", "mappings_walked", "explorer_children_checked", "index_sources_checked", "deser_with_options", "repo_tests_slot_checks", "shared_options_object"]
+MUST_SEE = ["indented_json_with_options", "option_spelled_false", "raised_with_options", "failpoints_fired", "failpoint_nested", "default_after_fault", "bomb_positions", "corrupt_payloads", "option_subsets", "mappings_walked", "explorer_children_checked", "index_sources_checked", "deser_with_options", "repo_tests_slot_checks", "shared_options_object"]
 CONFIG = {
     "quick": {"shards": 16, "trees": 16, "subsets": 14, "failpoint_trees": 1, "watchdog_s": 600},
     "thorough": {"shards": 32, "trees": 40, "subsets": 48, "failpoint_trees": 4, "watchdog_s": 3400},
@@ -224,6 +224,10 @@ def run_shard(ctx):
             return root.as_dict(mashumaro_dialect=md, serialization_options=so)
         if how == "to_json":
             return json.loads(root.to_json(serialization_options=so))
+        if how == "to_json_indent":
+            return json.loads(root.to_json(indent=True, serialization_options=so))
+        if how == "to_jsonb_indent":
+            return json.loads(root.to_jsonb(indent=True, serialization_options=so))
         if how == "to_msgpck":
             import msgpack
 
@@ -270,7 +274,9 @@ def run_shard(ctx):
             ctx.count("option_subsets")
             if any(v is False for v in opts.values()):
                 ctx.count("option_spelled_false")
-            how = rng.choice(["as_dict", "as_dict", "to_json", "to_msgpck", "to_yaml"])
+            how = rng.choice(["as_dict", "as_dict", "to_json", "to_json_indent", "to_jsonb_indent", "to_msgpck", "to_yaml"])
+            if "indent" in how:
+                ctx.count("indented_json_with_options")
             call = {"call": how, "options": odesc(opts, md), "tree": spec_json(s)}
             ctx.evaluations += 1
             ctx.fp((fp, how, tuple(odesc(opts, md)), "ok"))
